@@ -313,7 +313,13 @@ def jobs(tier, seed):
     for h in ([1, 2, 3] if tier == "quick" else [1, 2, 3, 4]):
         for o in ORIENTATIONS:
             js.append(Job("R[h=%d,%s]" % (h, o), "h_real", {"h": h, "o": o}, {"logic": None, "max_paths": 100000}, weight=4 ** h / 4))
+    js.append(Job("conformance[test_hilbert indices]", "conf_hilbert", {"full": tier != "quick"}, {"direct": True}, weight=30))
     return js
+
+
+def conf_hilbert(seed=0, full=False):
+    from . import conformance
+    return conformance.hilbert(seed, full)
 
 
 _PRE = """
